@@ -72,6 +72,90 @@ func runC19(c *core.Ctx) {
 
 	c.Doc("C19.single-insert", "poll[addr]=c only after a failed lookup of the same key under the same exclusive lock; the duplicate is closed and the existing client returned", 2)
 	singleInsert(c, lc)
+
+	// proxies of one session share one connection: concurrent requests must not
+	// interleave on the wire (rule shared with C10)
+	if a := getEP(c, "C19.anchors"); a != nil {
+		c.Doc("C10.single-write", "one stream write per message on the shared connection", 5)
+		ruleSingleWrite(c, a)
+	}
+
+	c.Doc("C19.pool-lifetime", "a pooled connection is only closed by Terminate; the evicting disconnect handler is only attached to the connection that was inserted", 3)
+	poolLifetime(c)
+}
+
+// poolLifetime: (a) every EndPoint.Close() in bus/session is either
+// Session.Terminate closing the whole pool or Session.client closing the
+// connection it just dialled and did not insert; (b) a handler whose closer
+// deletes from the pool is registered only after the pool insert (otherwise
+// the losing dialler's close evicts the winner's entry).
+func poolLifetime(c *core.Ctx) {
+	const rule = "C19.pool-lifetime"
+	poll := fld(c, "bus/session", "Session", "poll")
+	clientFn := c.Func("bus/session", "Session", "client")
+	if poll == nil || clientFn == nil {
+		c.Undecided(rule, "bus/session.Session", token.NoPos, "anchor not found")
+		return
+	}
+	n := 0
+	for _, fn := range srcFuncsOfPkg(c, "bus/session") {
+		for i, call := range core.Calls(fn) {
+			cc := call.Common()
+			if !(cc.IsInvoke() && cc.Method.Name() == "Close" && core.TypeIs(cc.Value.Type(), "bus/net", "EndPoint")) {
+				continue
+			}
+			n++
+			key := fmt.Sprintf("EndPoint.Close@%s#%d", core.FuncKey(fn), i)
+			root := fn
+			for root.Parent() != nil {
+				root = root.Parent()
+			}
+			switch {
+			case root.Name() == "Terminate":
+				c.Pass(rule, key, call.Pos(), "Terminate closes the pool")
+			case fn == clientFn:
+				// the endpoint closed is the one of the channel just dialled (SelectEndPoint result)
+				fresh := false
+				if cr, _ := core.CallResult(core.Canon(cc.Value)); cr != nil && cr.Common().IsInvoke() && cr.Common().Method.Name() == "EndPoint" {
+					if e, ok := core.Canon(cr.Common().Value).(*ssa.Extract); ok {
+						if sc, ok := e.Tuple.(*ssa.Call); ok && sc.Call.StaticCallee() != nil && sc.Call.StaticCallee().Name() == "SelectEndPoint" {
+							fresh = true
+						}
+					}
+				}
+				c.Check(fresh, rule, key, call.Pos(), "closes the connection it just dialled and did not insert", "Session.client closes an endpoint that is not the one it just dialled")
+			default:
+				c.Fail(rule, key, call.Pos(), "a connection that may be in the session's pool (and shared by other proxies and goroutines) is closed outside Terminate: their in-flight requests fail and the session dials again (more than one connection per endpoint over time)")
+			}
+		}
+	}
+	if n < 2 {
+		c.Undecided(rule, "EndPoint.Close", token.NoPos, "expected Close sites in Terminate and client not found")
+	}
+	// evicting handlers only after the insert
+	ups, _ := mapWrites(clientFn, poll)
+	for i, call := range core.Calls(clientFn) {
+		cc := call.Common()
+		if !(cc.IsInvoke() && (cc.Method.Name() == "AddHandler" || cc.Method.Name() == "MakeHandler")) || len(cc.Args) != 3 {
+			continue
+		}
+		cl, _ := funcValue(cc.Args[2])
+		if cl == nil {
+			continue
+		}
+		_, dels := mapWrites(cl, poll)
+		if len(dels) == 0 {
+			continue
+		}
+		key := fmt.Sprintf("evicting-handler@%s#%d", core.FuncKey(clientFn), i)
+		after := false
+		for _, up := range ups {
+			if core.Dominates(up, call.(ssa.Instruction)) {
+				after = true
+			}
+		}
+		c.Check(after, rule, key, call.Pos(), "registered after poll[addr] = c", "the handler whose closer deletes poll[addr] is registered before the connection is inserted in the pool: when two goroutines dial the same endpoint the loser closes its connection, its closer fires and evicts the winner's entry, and later requests dial again")
+	}
 }
 
 // singleInsert: E2 on Session.client.
